@@ -102,6 +102,7 @@ func main() {
 			c.Require("seq.cut_write_registrations", 3)
 			c.Require("lostkey.trials.emptied", 3)
 			c.Require("lostkey.trials.deleted", 3)
+			c.Require("slowbody.trials", 4)
 			c.Require("transient.trials", 6)
 			c.Require("transient.winners.1", 6)
 			c.Require("copied_signature.altered_orders_refused", 20)
@@ -883,6 +884,9 @@ func childBase(b run.Batch, r *ev.Result) {
 		}
 		for i := 0; i < 2 && r.NumViolations() < 5; i++ {
 			lostKeyFile(b, r, sink, i)
+		}
+		for i := 0; i < 2 && r.NumViolations() < 5; i++ {
+			slowBody(b, r, sink, i)
 		}
 	case "conc":
 		for i := 0; i < b.N && r.NumViolations() < 5; i++ {
